@@ -514,6 +514,53 @@ func c13ScalarCase(c *core.Ctx, part int) {
 			})
 		}
 	}
+	// every (first list, second list) pair over a 3-letter universe up to length 3 (duplicates, permutations, subsets):
+	// the second write replaces the first; GetAndSetStringList also reports the old content and whether anything changed
+	if part == 2 {
+		var lists [][]string
+		var rec func(cur []string)
+		rec = func(cur []string) {
+			lists = append(lists, append([]string{}, cur...))
+			if len(cur) == 3 {
+				return
+			}
+			for _, x := range []string{"a", "b", "c"} {
+				rec(append(cur, x))
+			}
+		}
+		rec(nil)
+		for i, first := range lists {
+			for j, second := range lists {
+				if (i+j)%2 == 1 && c.Tier != core.Thorough {
+					continue
+				}
+				first, second := first, second
+				f := fmt.Sprintf("pair_%d_%d", i, j)
+				exp, old := normList(second), normList(first)
+				for _, viaGetAndSet := range []bool{false, true} {
+					viaGetAndSet := viaGetAndSet
+					fld := f + map[bool]string{true: "g", false: "s"}[viaGetAndSet]
+					var gotOld []string
+					var gotChanged bool
+					add(fmt.Sprintf("string list overwrite %q -> %q (GetAndSet=%v)", first, second, viaGetAndSet), func(b *boltz.TypedBucket) {
+						b.SetStringList(fld, first, nil)
+						if viaGetAndSet {
+							gotOld, gotChanged = b.GetAndSetStringList(fld, second, nil)
+						} else {
+							b.SetStringList(fld, second, nil)
+						}
+					}, func(b *boltz.TypedBucket) (bool, string) {
+						g := b.GetStringList(fld)
+						ok := reflect.DeepEqual(normNil(g), exp)
+						if viaGetAndSet {
+							ok = ok && reflect.DeepEqual(normNil(gotOld), old) && (gotChanged || reflect.DeepEqual(old, exp))
+						}
+						return ok, fmt.Sprintf("%s (old reported %q, changed %v)", short(g), gotOld, gotChanged)
+					})
+				}
+			}
+		}
+	}
 	// write everything in one transaction, read in a later one
 	werr := d.update(func(b *boltz.TypedBucket) {
 		for _, ch := range checks {
